@@ -27,6 +27,10 @@ GLocal ==
           \/ \E t \in Types : \E id \in pend[t] : Cancel(id) /\ Rec([e |-> "cancel", id |-> id])
           \/ \E t \in Types, v \in 0..MaxV : PeerMaxStreams(t, v) /\ Rec([e |-> "peermax", ty |-> t, v |-> v])
           \/ ConnClosed /\ ~closed /\ Rec([e |-> "close"])
+          \* a late frame for a stream number we may or may not have opened (wasOpened), in
+          \* every order relative to calls, blocked calls and MAX_STREAMS
+          \/ \E t \in Types, num \in 0..MaxCalls :
+                UNCHANGED vars /\ Rec([e |-> "late", ty |-> t, num |-> num])
 
 GRemote ==
     \/ \E t \in Types, num \in 0..MaxNum : \E m \in AllowedRmax(t, rclosed[t]) :
